@@ -129,3 +129,38 @@ Proof.
     destruct M as [M1 M2]. exists p. auto.
   - reflexivity.
 Qed.
+
+(* ------------------------------------------------------------------ member names with a zero byte
+   The model compares member names over their whole cached length (mkey_match: what memcmp does - fixes/jpatch-merge-nul.diff).
+   The unmodified code uses strncmp, which stops at a zero byte: *)
+Fixpoint strncmp_c (a b : list Z) (n : nat) : bool :=
+  match n with
+  | O => true
+  | S n' => match a, b with
+            | [], [] => true
+            | x :: a', y :: b' => if x =? y then (if x =? 0 then true else strncmp_c a' b' n') else false
+            | _, _ => false
+            end
+  end.
+Definition mkey_match_c (pc c : node) : bool := (n_kl c =? n_kl pc) && strncmp_c (n_key c) (n_key pc) (Z.to_nat (n_kl c)).
+
+(* on names without a zero byte both comparisons agree: for those the model IS the code *)
+Lemma strncmp_c_nul_free : forall a b n, Forall (fun x => x <> 0) a -> strncmp_c a b n = strncmp_eq a b n.
+Proof.
+  induction a as [|x a IH]; intros b n H.
+  - destruct n; [reflexivity|]. destruct b; reflexivity.
+  - destruct n as [|n]; [reflexivity|]. destruct b as [|y b]; [reflexivity|].
+    inversion H as [|? ? Hx Ha]; subst. cbn [strncmp_c strncmp_eq].
+    destruct (x =? y) eqn:E; [|reflexivity]. cbn [andb].
+    destruct (x =? 0) eqn:Z0; [apply Z.eqb_eq in Z0; contradiction|]. apply IH. exact Ha.
+Qed.
+Theorem mkey_match_c_nul_free : forall pc c, Forall (fun x => x <> 0) (n_key c) -> mkey_match_c pc c = mkey_match pc c.
+Proof. intros pc c H. unfold mkey_match_c, mkey_match. rewrite (strncmp_c_nul_free _ _ _ H). reflexivity. Qed.
+
+(* with a zero byte they differ: the member "a\0b" is taken for the patch member "a\0c" *)
+Theorem merge_name_nul_refuted : exists c pc, good c /\ good pc /\ key_ok c /\ key_ok pc /\ n_key c <> n_key pc /\
+  mkey_match_c pc c = true /\ mkey_match pc c = false.
+Proof.
+  exists (of_val 3 [97; 0; 98] (JI64 1)), (of_val 3 [97; 0; 99] (JI64 2)).
+  split; [apply of_val_good|]. split; [apply of_val_good|]. repeat split; try reflexivity. discriminate.
+Qed.
